@@ -87,7 +87,7 @@ Proof. exact refuted_abs_title. Qed.
 Print Assumptions C11_prefix_refuted_raw_absolute_title.
 
 Theorem C11_prefix_refuted_link_replaces_working_directory :
-  lookup (st_fs (fst (pushes (mkCfg true true false true true true) false wd0 cwd0 (mkStore fs1 []) os_replace_wd))) wd0
+  lookup (st_fs (fst (pushes (mkCfg true true false true true true) false wd0 cwd0 (mkStore fs1 [] []) os_replace_wd))) wd0
   <> Some NDir.
 Proof. exact refuted_replace_wd. Qed.
 Print Assumptions C11_prefix_refuted_link_replaces_working_directory.
@@ -114,8 +114,8 @@ Print Assumptions C11_prefix_refuted_unpack_through_link.
 (* (the earlier witness "directory entry on top of a link is chmod'ed through it" is gone: directory
    modes are now applied after the last entry and only to paths that are still directories) *)
 Example C11_example_remode_skips_links :
-  snd (fst (pushes cfg_fixed true wd0 cwd0 (mkStore fs0 []) os_remode), snd (pushes cfg_fixed true wd0 cwd0 (mkStore fs0 []) os_remode)) = [true] /\
-  view_at (st_fs (fst (pushes cfg_fixed true wd0 cwd0 (mkStore fs0 []) os_remode))) [b "r"] = view_at fs0 [b "r"].
+  snd (fst (pushes cfg_fixed true wd0 cwd0 (mkStore fs0 [] []) os_remode), snd (pushes cfg_fixed true wd0 cwd0 (mkStore fs0 [] []) os_remode)) = [true] /\
+  view_at (st_fs (fst (pushes cfg_fixed true wd0 cwd0 (mkStore fs0 [] []) os_remode))) [b "r"] = view_at fs0 [b "r"].
 Proof. exact remode_skips_links. Qed.
 
 (* os.Chtimes through a freshly unpacked link sets the times of a file outside *)
@@ -131,7 +131,7 @@ Example C11_example_inv1 : Inv wd0 fs1.
 Proof. exact inv_fs1. Qed.
 
 Example C11_example_replace_wd_rejected :
-  pushes cfg_fixed false wd0 cwd0 (mkStore fs1 []) os_replace_wd = (mkStore fs1 [], [false]).
+  pushes cfg_fixed false wd0 cwd0 (mkStore fs1 [] []) os_replace_wd = (mkStore fs1 [] [], [false]).
 Proof. exact replace_wd_fixed. Qed.
 
 Example C11_example_ordinary :
@@ -200,8 +200,36 @@ Print Assumptions C11_entry_through_link_rejected.
 (* audit F3: without "no inode shared with the outside" the statement fails on the repaired store *)
 Theorem C11_shared_inode_refuted :
   inside wd0 [b "victim"] = false /\
-  snd (pushes cfg_fixed false wd0 cwd0 (mkStore fs2 []) [PBlob (b "old") 7%N]) = [true] /\
-  view_at (st_fs (fst (pushes cfg_fixed false wd0 cwd0 (mkStore fs2 []) [PBlob (b "old") 7%N]))) [b "victim"]
+  snd (pushes cfg_fixed false wd0 cwd0 (mkStore fs2 [] []) [PBlob (b "old") 7%N]) = [true] /\
+  view_at (st_fs (fst (pushes cfg_fixed false wd0 cwd0 (mkStore fs2 [] []) [PBlob (b "old") 7%N]))) [b "victim"]
   <> view_at fs2 [b "victim"].
 Proof. exact refuted_shared_inode. Qed.
 Print Assumptions C11_shared_inode_refuted.
+
+(* manifests (extension round): Store.Push of a manifest restores the named layers whose content
+   the store holds - each one an ordinary named-blob push in the current tree, so
+   C11_confined_partial covers histories with manifests; a hostile layer title ends the push *)
+Theorem C11_manifest_outside_layer_rejected :
+  forall (g : cfg) (wd : path) (s : store) (t : str) (c c' : N) (r : list (str * N)),
+    t <> [] -> existsb (str_eqb t) (st_names s) = false -> fetch s c = FSome c' ->
+    inside wd (lex_loc wd t) = false ->
+    restore_layers g wd s ((t, c) :: r) = (s, false).
+Proof. exact manifest_outside_layer_rejected. Qed.
+Print Assumptions C11_manifest_outside_layer_rejected.
+
+Example C11_example_manifest :
+  snd (run0 cfg_fixed os_manifest) = [true; true; true; true; false; false] /\
+  view_at (fst (run0 cfg_fixed os_manifest)) [b "r"; b "w"; b "second"] = VFile (enc 41 420) 0%N /\
+  view_at (fst (run0 cfg_fixed os_manifest)) [b "r"; b "w"; b "m"; b "third"] = VFile (enc 51 420) 0%N /\
+  view_at (fst (run0 cfg_fixed os_manifest)) [b "r"; b "w"; b "absent"] = VNone /\
+  view_at (fst (run0 cfg_fixed os_manifest)) [b "r"; b "w"; b "x"] = VFile (enc 52 420) 0%N /\
+  view_at (fst (run0 cfg_fixed os_manifest)) [b "r"; b "w"; b "never"] = VNone /\
+  view_at (fst (run0 cfg_fixed os_manifest)) [b "victim"] = view_at fs0 [b "victim"].
+Proof. exact manifest_ok. Qed.
+
+Example C11_example_manifest_stale_content :
+  snd (run0 cfg_fixed os_manifest_stale) = [true; true; false] /\
+  view_at (fst (run0 cfg_fixed os_manifest_stale)) [b "r"; b "w"; b "n1"] = VFile (enc 54 420) 0%N /\
+  view_at (fst (run0 cfg_fixed os_manifest_stale)) [b "r"; b "w"; b "copy"] = VNone /\
+  view_at (fst (run0 cfg_fixed os_manifest_stale)) [b "r"; b "w"; b "later"] = VNone.
+Proof. exact manifest_stale. Qed.
